@@ -12,6 +12,13 @@ namespace MassVerif.Miner
 
 theorem C08_facts : Facts.minerAllowAhead = 1 ∧ Facts.minerPocSlot = 3 ∧ Facts.minerSubmitChecksQuitAndTip = true := by decide
 
+/-- the comparisons the model transcribes stand in the source as the model has them: `workSlot > nowSlot+allowAhead`,
+`i <= nowSlot+allowAhead`, `quality.Cmp(bestQuality) > 0` from a `bestQuality` reset to 0 per slot, the target test
+`bestQuality.Cmp(GetTarget(Timestamp)) > 0`, `workSlot = Timestamp/pocSlot`; `time.Now().After(Timestamp)` before
+`ProcessBlock` and the recording of the mined height; the double-mining test and `SignHash(tProof.proof.SpaceID, ..)` -/
+theorem C08_condition_facts :
+    Facts.condMinerSearch = true ∧ Facts.condMinerSubmit = true ∧ Facts.condMinerDouble = true := by decide
+
 /-! ### choosing the best proof of one slot -/
 
 theorem bestOf_aux (s : Nat) (l : List Cand) (b : Option Cand) (bq : Nat)
